@@ -143,17 +143,17 @@ def parseOp (st : St) : List String → Option ApiOp
   | ["run"] => some .runMain
   | _ => none
 
-def finish (st : St) (sys : Sys) (impl : String) : St × String :=
-  let implObs := obsField impl
-  let (orc, verdict) := PC.Spec.Trace.feed st.orc impl implObs
+def finish (st : St) (sys : Sys) (op : List String) (impl : String) : St × String :=
+  let (orc, verdict) := PC.Spec.Trace.feed st.orc op impl
   ({ st with sys := sys, orc := orc }, render st sys ++ " ||| " ++ verdict)
 
 def step (st : St) (line : String) : St × String :=
   let (op, impl) := splitLine line
-  match words op with
+  let ws := words op
+  match ws with
   | ["sup", g, o] =>
     let gran := if g == "fine" then Gran.fine else Gran.coarse
-    ({ gran, ordered := o == "1" }, "ok ||| ok")
+    ({ gran, ordered := o == "1", orc := { ordered := o == "1" } }, "ok ||| ok")
   | ["proc", name, pol, mx, fl, sdt, sig, onsig, deps] =>
     match parsePolicy pol, mx.toNat?, sdt.toNat?, sig.toInt? with
     | some p, some m, some t, some sg =>
@@ -161,7 +161,7 @@ def step (st : St) (line : String) : St × String :=
       let c : Cfg := parseFlags fl { policy := p, maxRestarts := m, sdTimeout := t, sdSignal := sg, onSignal := onSignal }
       -- dependencies are resolved at `init` (names may be declared later): keep them encoded
       let st := { st with names := st.names ++ [name], cfgs := st.cfgs ++ [c],
-                          orc := PC.Spec.Trace.declare st.orc name pol mx fl deps }
+                          orc := PC.Spec.Trace.declare st.orc name pol mx fl onsig deps }
       (st, "ok ||| ok")
     | _, _, _, _ => (st, "bad-op")
   | ["deps", name, deps] =>
@@ -173,28 +173,28 @@ def step (st : St) (line : String) : St × String :=
     ({ st with cfgs := st.cfgs.modify i fun c => { c with deps := ds } }, "ok ||| ok")
   | ["init"] =>
     let sys := init st.gran st.ordered st.cfgs
-    finish st sys impl
+    finish st sys ws impl
   | "s" :: "call" :: id :: rest =>
     match id.toNat?, parseOp st rest with
-    | some id, some o => finish st (PC.Sup.step st.sys (.call id o) {}) impl
+    | some id, some o => finish st (PC.Sup.step st.sys (.call id o) {}) ws impl
     | _, _ => (st, "bad-op")
   | ["s", "run", key] =>
     match (threadKeys st st.sys).idxOf? key with
-    | some t => finish st (PC.Sup.step st.sys (.run t) (hintsOf st (obsField impl))) impl
+    | some t => finish st (PC.Sup.step st.sys (.run t) (hintsOf st (obsField impl))) ws impl
     | none => (st, "no-such-thread " ++ key)
   | ["s", "exit", n, c] =>
     match c.toInt? with
-    | some c => finish st (PC.Sup.step st.sys (.exit (nameIdx st n) c) {}) impl
+    | some c => finish st (PC.Sup.step st.sys (.exit (nameIdx st n) c) {}) ws impl
     | none => (st, "bad-op")
-  | ["s", "line", n, r] => finish st (PC.Sup.step st.sys (.line (nameIdx st n) (r == "1")) {}) impl
-  | ["s", "probe", n, r] => finish st (PC.Sup.step st.sys (.probe (nameIdx st n) (r == "ok")) {}) impl
+  | ["s", "line", n, r] => finish st (PC.Sup.step st.sys (.line (nameIdx st n) (r == "1")) {}) ws impl
+  | ["s", "probe", n, r] => finish st (PC.Sup.step st.sys (.probe (nameIdx st n) (r == "ok")) {}) ws impl
   | ["s", "probefatal", id, n] =>
     match id.toNat? with
-    | some id => finish st (PC.Sup.step st.sys (.probeFatal id (nameIdx st n)) {}) impl
+    | some id => finish st (PC.Sup.step st.sys (.probeFatal id (nameIdx st n)) {}) ws impl
     | none => (st, "bad-op")
-  | ["s", "killto", n] => finish st (PC.Sup.step st.sys (.killTimeout (nameIdx st n)) {}) impl
-  | ["end"] =>
-    let (orc, verdict) := PC.Spec.Trace.finish st.orc impl
+  | ["s", "killto", n] => finish st (PC.Sup.step st.sys (.killTimeout (nameIdx st n)) {}) ws impl
+  | ["end", reason] =>
+    let (orc, verdict) := PC.Spec.Trace.finish st.orc reason
     ({ st with orc := orc }, "ok ||| " ++ verdict)
   | _ => (st, "bad-op")
 
